@@ -28,6 +28,13 @@ namespace Pandora.Model.C14H
 open Pandora.Model.C08 hiding fullScan httpRun runFuel run
 open Pandora.Model.C14
 
+/-- what a `Scan` does when it reaches the end of the file (vocabulary of the blocks that `/verif/gen`, area "c14hdr",
+regenerates from the four decoders): return a sentinel, or seek to the start and read on; with the new `passNum` -/
+inductive EofAct where
+  | ret (r : ScanRes) (passNum : Nat)
+  | again (passNum : Nat)
+  deriving DecidableEq, Repr
+
 /-! ## http.Header as an association list (keys canonical, distinct) -/
 
 abbrev HMap := List (String × List String)
@@ -158,6 +165,7 @@ def scanLines (s : Source) (b : Bounds) (d : LDec) : ScanRes × LDec :=
 /-- `Provider.Run` over the uri / uripost decoder WITH its accumulator -/
 def runLinesFuel (s : Source) (preload : Bool) (chosen : EntryH → Bool) (b : Bounds) (cancelAt : Option Nat)
     (fuel : Nat) : Option (Outcome EntryH) :=
+  if loadSeesCancel .uri preload cancelAt then some ⟨[], .canceled, true⟩ else
   httpRun (scanLines s) (·.passNum) LDec.init (decodeLines s) chosen preload b cancelAt fuel
 
 def runLines (s : Source) (preload : Bool) (chosen : EntryH → Bool) (b : Bounds) (cancelAt : Option Nat) :
